@@ -19,6 +19,7 @@
      L:<start>:<end>             List            S:<start>:<end>   RangeScan
      N:<from>                    ReadNextNotifications(from)
      T:<term>:<0|1>              UpdateTerm(term, {NotificationsEnabled})     E:<0|1>  EnableNotifications
+     B:<seed>                    busy process from here on (harness/cmd/db/c12_busy.go); no effect in the model  -> ok
      R                           close + NewDB on the same store              C        ReadCommitOffset
      D                           full ordered dump                            H        md5 of the dump text
      IG:<name>:<cmp>:<key>:<incl>   IL:<name>:<start>:<end>   IS:<name>:<start>:<end>   secondary-index reads
@@ -124,6 +125,7 @@ let run_op hostile cfg (st : M.state) (op : string) : M.state * string =
       | M.Err e -> err_out e | M.Ok l -> join "," (List.map batch_s l)))
   | ["T"; term; en] -> (M.update_term st (mz_of_string term) (en = "1") M.N0, "ok")
   | ["E"; en] -> (M.enable_notifications st (en = "1"), "ok")
+  | ["B"; _seed] -> (st, "ok")   (* busy process (harness only): no effect on the DB *)
   | ["R"] -> (match M.reopen (M.persist st) with M.Ok st' -> (st', "ok") | M.Err e -> (st, err_out e))
   | ["C"] -> (st, (match M.read_commit_offset st with M.Ok z -> string_of_mz z | M.Err e -> err_out e))
   | ["D"] -> (st, dump_s st)
